@@ -151,7 +151,9 @@ def r1_user_level(run, w):
   run.ob(R1, fn.qualname, short(convs[0]) if convs else "new_column.convert(...)",
          "each new value is the new column's conversion of that row's captured old value", ok,
          fi=fn.fi, node=convs[0] if convs else None)
-  if not (ok and origv and newvalv):
+  if not ok:
+    return      # the violation above is the report; the rest of the rule needs this shape
+  if not (origv and newvalv):
     raise AnalysisError("doModifyColumn: conversion result is not bound to simple locals")
   # differing rows
   ifs = [s for s in lp.stmt.body if isinstance(s, ast.If)]
